@@ -86,7 +86,20 @@ def _shapes() -> list:
         for src in SOURCES:
             for tgt in TARGETS:
                 shapes.append(f"merge into {tgt} using {src} on {on} " + " ".join(base))
+    # target in ANOTHER schema than the session's, which has a table of the same name (the bystander must stay untouched)
+    for tgt in FOREIGN_TARGETS:
+        for cs in (base, [base[2]], [base[1], base[2]], [f"when not matched {N_COND[1]} then {INS[1]}", base[0]]):
+            shapes.append(f"merge into {tgt} using t2 on t1.k = t2.k " + " ".join(cs))
     return shapes
+
+
+FOREIGN_TARGETS = ["s2.t1", "db1.s2.t1", "DB1.S2.T1"]
+TKEY_FOREIGN = "DB1.S2.T1"
+BYSTANDER = "DB1.S1.T1"
+
+
+def _is_foreign(merge_sql: str) -> bool:
+    return "s2.t1 " in merge_sql.lower()
 
 
 # ------------------------------------------------------------------ emitted statements (from the real pipeline)
@@ -209,8 +222,11 @@ def oracle(env: S.Env, merge_sql: str):
     return S.Table(t.name, t.colnames, new_rows), counts, z3.And(determinism)
 
 
-def _fresh_env(nt: int, ns: int) -> S.Env:
-    env = S.Env({"T1": S.symbolic_table("T1", COLS, nt), "T2": S.symbolic_table("T2", COLS, ns)})
+def _fresh_env(nt: int, ns: int, foreign: bool = False) -> S.Env:
+    if foreign:
+        env = S.Env({TKEY_FOREIGN: S.symbolic_table(TKEY_FOREIGN, COLS, nt, prefix="T1"), BYSTANDER: S.symbolic_table(BYSTANDER, COLS, 1, prefix="BY"), "T2": S.symbolic_table("T2", COLS, ns)})
+    else:
+        env = S.Env({"T1": S.symbolic_table("T1", COLS, nt), "T2": S.symbolic_table("T2", COLS, ns)})
     env.placeholders = {P1: z3.Int("C1"), P2: z3.Int("C2")}
     return env
 
@@ -227,15 +243,18 @@ def _no_shared_keys(t: S.Table):
 
 def decide_shape(merge_sql: str, nt: int, ns: int, carve: bool = True):
     """-> (verdict, model-dict or None, solver seconds, notes)"""
-    env = _fresh_env(nt, ns)
-    pre_t1, pre_t2 = env.tables["T1"].copy(), env.tables["T2"].copy()
+    foreign = _is_foreign(merge_sql)
+    tkey = TKEY_FOREIGN if foreign else "T1"
+    env = _fresh_env(nt, ns, foreign)
+    pre_t1, pre_t2 = env.tables[tkey].copy(), env.tables["T2"].copy()
+    pre_by = env.tables[BYSTANDER].copy() if foreign else None
     want_t, want_counts, determinism = oracle(env, merge_sql)
     stmts = emitted(merge_sql)
     run = S.Env(dict(env.tables))
     run.placeholders = env.placeholders
     for stt in stmts:
         S.execute(run, stt)
-    got_t = run.tables["T1"]
+    got_t = run.tables[tkey]
     res = run.last_result
     if res is None or len(res.rows) != 1:
         raise S.Unsupported("the last emitted statement is not the one-row counts select")
@@ -255,6 +274,9 @@ def decide_shape(merge_sql: str, nt: int, ns: int, carve: bool = True):
     if seen != need:
         return "sat", {"reason": f"count columns {sorted(seen)} but the clauses need {sorted(need)}"}, 0.0, []
     good = z3.And(S.bag_equal(got_t, want_t), *count_ok, S.bag_equal(run.tables["T2"], pre_t2))
+    if foreign:
+        # the same-named table of the session's own schema is not the target
+        good = z3.And(good, S.bag_equal(run.tables[BYSTANDER], pre_by))
     pre = [determinism]
     if carve:
         pre.append(_no_shared_keys(pre_t1))
@@ -291,21 +313,35 @@ def real_merge(merge_sql: str, t1: list, t2: list, c1: int, c2: int):
     cur = conn.cursor()
     cur.execute("create table t1 (k int, v int, w int)")
     cur.execute("create table t2 (k int, v int, w int)")
-    for name, rows in (("t1", t1), ("t2", t2)):
+    tname = "t1"
+    if _is_foreign(merge_sql):
+        # the target lives in another schema; the session's own schema has a same-named bystander holding one marker row
+        cur.execute("create schema s2")
+        cur.execute("create table s2.t1 (k int, v int, w int)")
+        cur.execute("insert into t1 values (-9, -9, -9)")
+        tname = "s2.t1"
+    for name, rows in ((tname, t1), ("t2", t2)):
         for r in rows:
             cur.execute(f"insert into {name} values ({', '.join('null' if x is None else str(x) for x in r)})")
     sql = merge_sql.replace(P1, str(c1)).replace(P2, str(c2))
     cur.execute(sql)
     names = [d.name for d in cur.description]
     counts = dict(zip(names, [None if x is None else int(x) for x in cur.fetchall()[0]]))
-    final = sorted(cur.execute("select k, v, w from t1").fetchall(), key=repr)
+    final = sorted(cur.execute(f"select k, v, w from {tname}").fetchall(), key=repr)
     src = sorted(cur.execute("select k, v, w from t2").fetchall(), key=repr)
+    if tname != "t1" and cur.execute("select k, v, w from t1").fetchall() != [(-9, -9, -9)]:
+        final = final + [("bystander changed", cur.execute("select k, v, w from t1").fetchall())]
     return final, counts, src
 
 
 def _concrete_eval(merge_sql: str, t1: list, t2: list, c1: int, c2: int):
     """symsql + oracle on concrete tables (z3 constants), returns (emitted result, emitted counts, oracle result, oracle counts)."""
-    env = S.Env({"T1": S.concrete_table("T1", COLS, t1), "T2": S.concrete_table("T2", COLS, t2)})
+    foreign = _is_foreign(merge_sql)
+    tkey = TKEY_FOREIGN if foreign else "T1"
+    if foreign:
+        env = S.Env({TKEY_FOREIGN: S.concrete_table(TKEY_FOREIGN, COLS, t1), BYSTANDER: S.concrete_table(BYSTANDER, COLS, [(-9, -9, -9)]), "T2": S.concrete_table("T2", COLS, t2)})
+    else:
+        env = S.Env({"T1": S.concrete_table("T1", COLS, t1), "T2": S.concrete_table("T2", COLS, t2)})
     env.placeholders = {P1: z3.IntVal(c1), P2: z3.IntVal(c2)}
     want_t, want_counts, _det = oracle(env, merge_sql)
     run = S.Env(dict(env.tables))
@@ -315,7 +351,9 @@ def _concrete_eval(merge_sql: str, t1: list, t2: list, c1: int, c2: int):
     s = z3.Solver()
     assert s.check() == z3.sat
     mdl = s.model()
-    got = sorted(S.model_table(mdl, run.tables["T1"]), key=repr)
+    got = sorted(S.model_table(mdl, run.tables[tkey]), key=repr)
+    if foreign and S.model_table(mdl, run.tables[BYSTANDER]) != [(-9, -9, -9)]:
+        got = got + [("bystander changed", S.model_table(mdl, run.tables[BYSTANDER]))]
     want = sorted(S.model_table(mdl, want_t), key=repr)
     res = run.last_result
     gc = {
